@@ -182,34 +182,36 @@ func c15Scenarios(tier string) []*Scenario {
 	for _, p := range progs {
 		for _, rev := range p.rev {
 			for _, noFC := range []bool{false, true} {
-				p, rev, noFC := p, rev, noFC
-				if noFC && p.name != "send||recv||header" && p.name != "rpcs||close" {
-					continue
-				}
-				cfg := TunCfg{Reverse: rev, ServerNoFC: noFC}
-				scs = append(scs, &Scenario{
-					Name: fmt.Sprintf("c15/%s/%s", cfg, p.name), Prop: "C15", Heavy: true,
-					Desc: fmt.Sprintf("%s on a %s tunnel; every lock, atomic, condition, wait-group and channel operation of the library is a scheduling point; <= %d deviations", p.desc, cfg, bound),
-					Opt:  Options{Level: "sync", Bound: bound},
-					Run: func(w *World) {
-						t := w.OpenTunnel(cfg)
-						if t.StartErr != nil {
-							return
-						}
-						p.run(w, t)
-						t.Close()
-					},
-					Check: func(w *World, x *Exec) []Violation {
-						vs := NoHang(x, "C15")
-						if x.Hang {
-							vs[0].Sig = "conc:" + vs[0].Sig
+				for _, revOrder := range []bool{false, true} {
+					p, rev, noFC, revOrder := p, rev, noFC, revOrder
+					if noFC && p.name != "send||recv||header" && p.name != "rpcs||close" {
+						continue
+					}
+					cfg := TunCfg{Reverse: rev, ServerNoFC: noFC}
+					scs = append(scs, &Scenario{
+						Name: fmt.Sprintf("c15/%s/%s/rev=%v", cfg, p.name, revOrder), Prop: "C15", Heavy: true,
+						Desc: fmt.Sprintf("%s on a %s tunnel; every lock, atomic, condition, wait-group and channel operation of the library is a scheduling point; <= %d deviations", p.desc, cfg, bound),
+						Opt:  Options{Level: "sync", Bound: bound, RevOrder: revOrder},
+						Run: func(w *World) {
+							t := w.OpenTunnel(cfg)
+							if t.StartErr != nil {
+								return
+							}
+							p.run(w, t)
+							t.Close()
+						},
+						Check: func(w *World, x *Exec) []Violation {
+							vs := NoHang(x, "C15")
+							if x.Hang {
+								vs[0].Sig = "conc:" + vs[0].Sig
+								return vs
+							}
+							vs = append(vs, p.chk(w, x)...)
+							vs = append(vs, NoLeak(w, x, "C15")...)
 							return vs
-						}
-						vs = append(vs, p.chk(w, x)...)
-						vs = append(vs, NoLeak(w, x, "C15")...)
-						return vs
-					},
-				})
+						},
+					})
+				}
 			}
 		}
 	}
@@ -218,7 +220,7 @@ func c15Scenarios(tier string) []*Scenario {
 
 func init() {
 	register(&PropDef{ID: "C15", Level: "model_checking",
-		Rule:        "concurrent API programs (send || recv || Header on one RPC; two such RPCs; a handler parked in a window-limited send || cancel || another RPC; RPCs || Close/Err/Done; RPCs || GracefulStop || Stop; registry queries || tunnel open || RPC), forward and reverse, flow control and revision zero, with EVERY lock, atomic, condition, wait-group and channel operation of the library as a scheduling point; all schedules with <= 1 (quick) / 2 (thorough) deviations; decided: no panic, no deadlock/hang, no atomicity violation visible to the message and metadata oracles, nothing left behind. The literal data-race clause (Go memory model) is NOT decidable by schedule enumeration with the installed tools and is not claimed here (see DESIGN.md 3.C15)",
+		Rule:        "concurrent API programs (send || recv || Header on one RPC; two such RPCs; a handler parked in a window-limited send || cancel || another RPC; RPCs || Close/Err/Done; RPCs || GracefulStop || Stop; registry queries || tunnel open || RPC), forward and reverse, flow control and revision zero, with EVERY lock, atomic, condition, wait-group and channel operation of the library as a scheduling point; all schedules with <= 1 (quick) / 2 (thorough) deviations around two default-scheduler families; decided: no panic, no deadlock/hang, no atomicity violation visible to the message and metadata oracles, nothing left behind. The literal data-race clause (Go memory model) is NOT decidable by schedule enumeration with the installed tools and is not claimed here (see DESIGN.md 3.C15)",
 		Assumptions: []string{"by Go's DRF-SC guarantee the sequentially consistent interleavings at synchronisation granularity enumerated here are all behaviours of the program only if it is data-race free; data-race freedom itself is outside this check"},
 		Globals:     []func(*Scenario, *World, *Exec) []Violation{ProtoMonitor},
 		Scenarios:   c15Scenarios})
